@@ -25,7 +25,7 @@ func c12Datasets() [][]model.Row {
 	ds := [][]model.Row{
 		{{"a": "1", "b": "2", "c": "foo"}, {"a": "1", "b": "3", "c": "bar"}, {"a": "5", "b": "2", "c": "foo"}, {"c": "quux"}},
 		{{"a": "x"}, {"b": "y"}, {}, {"a": "x", "b": "y"}, {"a": "z", "b": "y"}},
-		{{"a": "x", "b": "é", "c": ""}, {"a": "x", "b": "q\"\n", "c": "1"}, {"a": "y", "b": "é", "c": "1"}},
+		{{"a": "x", "b": "é", "c": ""}, {"a": "x", "b": "q\"\n", "c": "1"}, {"a": "y", "b": "é", "c": "1"}, {"a": "\"x\"", "b": "\"", "c": "y\""}},
 		{{"a": "only"}},
 		{{"a": "x", "count": "7", "b": "y"}, {"a": "x", "count": "8"}, {"a": "z", "count": "7", "b": "y"}},
 		// values that are prefixes of each other and continue with characters below and above ',' (row order = the library's
@@ -41,7 +41,7 @@ func c12Datasets() [][]model.Row {
 	return ds
 }
 
-var c12DSNOpts = []string{"", "?preload=true", "?lrucache=true&lrucachesize=0", "?lrucache=true&lrucachesize=10000000", "?preload=true&lrucache=true&lrucachesize=0", "?preload=true&lrucache=true&lrucachesize=10000000"}
+var c12DSNOpts = []string{"", "?lrucache=true&lrucachesize=5000000000", "?preload=true", "?lrucache=true&lrucachesize=0", "?lrucache=true&lrucachesize=10000000", "?preload=true&lrucache=true&lrucachesize=0", "?preload=true&lrucache=true&lrucachesize=10000000"}
 
 type c12Case struct {
 	Rows    []model.Row `json:"rows"`
@@ -136,7 +136,7 @@ func c12Compare(db *sql.DB, lib *updog.Index, c c12Case) (viol string) {
 }
 
 func c12Texts(thorough bool) ([]*model.Expr, [][]string) {
-	leaves := []*model.Expr{model.Eq("a", "x"), model.Eq("b", "y"), model.Eq("a", "nomatch"), model.Eq("zz", "1")}
+	leaves := []*model.Expr{model.Eq("a", "x"), model.Eq("b", "y"), model.Eq("a", "nomatch"), model.Eq("zz", "1"), model.Eq("a", "\"x\"")}
 	d := 1
 	if thorough {
 		d = 2
